@@ -211,7 +211,7 @@ func (eng *Engine) load() error {
 				eng.structural = append(eng.structural, fmt.Sprintf("%s:%d: contract for %q binds to no function in %s", strings.TrimPrefix(c.File, eng.repo+"/"), c.Line, c.Ref, sp.Pkg.Name()))
 				continue
 			}
-			if !c.HasMod {
+			if !c.HasMod && !c.ModAny {
 				// default frame of a verified contract: nothing visible to the caller changes (checked)
 				c.HasMod = true
 			}
@@ -405,7 +405,7 @@ func (eng *Engine) newTop(fn *ssa.Function, c *Contract) *fnCtx {
 	fc := &fnCtx{eng: eng, fn: fn, contract: c, defs: newDefs(),
 		kindCtr: map[string]int{}, heapInit: map[string]string{}, heapSorts: map[string]string{}, strLits: map[string]string{},
 		params: map[string]Val{}, externsUsed: map[string]bool{}, inlinedFns: map[string]bool{}, calleeUsed: map[string]bool{},
-		callOrd: map[string]int{}, storeOrd: map[*ssa.Alloc]int{}, framedBases: map[string]bool{}}
+		callOrd: map[string]int{}, storeOrd: map[*ssa.Alloc]int{}, framedBases: map[string]bool{}, boundCalls: map[int]bool{}, boundAfters: map[int]bool{}}
 	fc.top = fc
 	return fc
 }
@@ -445,7 +445,7 @@ func (eng *Engine) verifyFunction(tg target) *funcResult {
 			fc.assume(st, f)
 		}
 	}
-	envPre := &SpecEnv{fc: fc, st: st, vars: fc.params, bound: map[string]Val{}, pkg: fn.Package()}
+	envPre := &SpecEnv{fc: fc, st: st, vars: fc.params, bound: map[string]Val{}, pkg: fn.Package(), lets: letsOf(c)}
 	for _, r := range c.Requires {
 		g, err := envPre.assumption(r.Expr)
 		if err != nil {
@@ -485,9 +485,24 @@ func (eng *Engine) verifyFunction(tg target) *funcResult {
 			results[i] = Val{T: fc.defs.Define("result", fc.S().SortOf(rt), term), Ty: rt}
 		}
 		fc.obligeSat(ret, "vacuity-exit", "some execution reaches a return")
-		env := &SpecEnv{fc: fc, st: ret, old: fc.entry, vars: map[string]Val{}, oldVars: nil, bound: map[string]Val{}, pkg: fn.Package()}
+		env := &SpecEnv{fc: fc, st: ret, old: fc.entry, vars: map[string]Val{}, oldVars: nil, bound: map[string]Val{}, pkg: fn.Package(), lets: letsOf(c)}
 		for k, v := range fc.params {
 			env.vars[k] = v
+		}
+		// final values of locals may be named in ensures clauses (ghost witnesses)
+		env.ghost = func(name string) (Val, bool) {
+			a := calleeLocal(fn, name)
+			if a == nil {
+				return Val{}, false
+			}
+			et := a.Type().(*types.Pointer).Elem()
+			if v, ok := ret.cells[a]; ok && v != "" {
+				return Val{T: v, Ty: et}, true
+			}
+			if fc.escaping[a] {
+				return Val{T: fc.readLVal(ret, &LVal{Kind: lvHeap, Ptr: fc.vals[a].T, Base: et}), Ty: et}, true
+			}
+			return Val{}, false
 		}
 		rn := resultNames(fn.Signature)
 		for i, n := range rn {
@@ -535,7 +550,7 @@ func (eng *Engine) verifyFunction(tg target) *funcResult {
 	}
 	res.Obligations = fc.obligations
 	res.Imprecise = fc.imprecise
-	res.SpecErrors = fc.specErrors
+	res.SpecErrors = append(fc.specErrors, fc.unboundClauses()...)
 	res.Externs = sortedKeys(fc.externsUsed)
 	res.Callees = sortedKeys(fc.calleeUsed)
 	res.Inlined = sortedKeys(fc.inlinedFns)
@@ -601,7 +616,7 @@ func (eng *Engine) verifyLemma(lt lemmaTarget) *funcResult {
 	st := &State{pc: "true", heapBase: "0", cells: map[*ssa.Alloc]string{}, globs: map[*ssa.Global]string{}, heap: map[string]string{}}
 	st.alloc = fc.defs.Declare("alloc0", "Int")
 	fc.assume(st, "(>= "+st.alloc+" 1)")
-	env := &SpecEnv{fc: fc, st: st, vars: map[string]Val{}, bound: map[string]Val{}, pkg: lt.pkg}
+	env := &SpecEnv{fc: fc, st: st, vars: map[string]Val{}, bound: map[string]Val{}, pkg: lt.pkg, lets: letsOf(c)}
 	var inputs []modelInput
 	for _, p := range c.Params {
 		// "name Type"
